@@ -158,8 +158,10 @@ class FilesystemRegistry(AbstractRegistry):
     def __iter__(self):
         seen = set()  # a plasmid stored under several extensions is one key
         for f in self.fs.filterdir("/", files=self._files, exclude_dirs=["*"]):
-            name, _ = splitext(f.name)
-            if name not in seen:
+            name, ext = splitext(f.name)
+            # some filesystems match the patterns without regard to case,
+            # lookup does not: `plasmid.GBK` is not a `gbk` file
+            if ext[1:] in self._extensions and name not in seen:
                 seen.add(name)
                 yield name
 
